@@ -1,0 +1,9 @@
+//go:build verif
+
+// Verification contracts for package xml (comment-only; compiled only with -tags verif).
+// Read by /verif/cmd/gvc; see /verif/DESIGN.md for the contract language.
+
+package xml
+
+// C20: no-panic sweep over the XML importer adapter
+//@ sweep C20: (*XmlTreeImporter).GetElement (*XmlTreeImporter).GetElements (*XmlTreeImporter).GetKeyValue (*XmlTreeImporter).GetName (*XmlTreeImporter).GetTVValue
